@@ -110,6 +110,11 @@ namespace ip {
 
 		if (m_queue.empty()) return;
 
+		// a completion that was already on its way when the queue was cancelled
+		// and filled again must not complete a newer lookup ahead of its time
+		// (the timer has been re-armed for that entry)
+		if (m_queue.front().completion_time > chrono::high_resolution_clock::now()) return;
+
 		typename queue_t::value_type v = std::move(m_queue.front());
 		m_queue.erase(m_queue.begin());
 
@@ -129,6 +134,7 @@ namespace ip {
 	{
 		queue_t q;
 		m_queue.swap(q);
+		m_timer.cancel();
 		for (auto& r : q)
 		{
 			r.err = asio::error::operation_aborted;
